@@ -1105,11 +1105,12 @@ pub fn run_case_thread<T: Send + 'static>(
     story_seed: i32,
     fuel: u64,
     timeout_s: u64,
+    stack_mb: usize,
     f: impl FnOnce() -> T + Send + 'static,
 ) -> Result<T, bool> {
     let (tx, rx) = std::sync::mpsc::channel::<T>();
     let h = std::thread::Builder::new()
-        .stack_size(64 << 20)
+        .stack_size(stack_mb.max(1) << 20)
         .spawn(move || {
             seams::install_entropy(hash_seed);
             bladeink::verif::set_story_seed(Some(story_seed));
